@@ -215,7 +215,8 @@ class ExprGen:
         if is_composite_type(named):
             sub_holder = self.holder_for(named)
             if sub_holder is None:
-                self.skip("no_builder_class_for_type")
+                # a generated member returns this type, so its selection can only be written with the type's builder class
+                self.missing.append("builder class of type %s, which %s.%s returns" % (named.name, holder.__name__, fname))
                 return None
             ok = self.fill(obj, sub_holder, named, shape, depth - 1, level + 1)
             if not ok:
@@ -245,6 +246,11 @@ class ExprGen:
             key_types: Dict[str, str] = {}
             for ot in poss[:3]:
                 oh = self.holder_for(ot)
+                if oh is None and isinstance(t, GraphQLUnionType):
+                    # the members of a union a generated member returns are part of what it returns (implementers of an interface are not: they get a class
+                    # only if some field returns them)
+                    self.missing.append("builder class of type %s, a member of the union %s which a generated member returns" % (ot.name, t.name))
+                    continue
                 subs = []
                 # fields that several member types share (inherited interface fields) come first: the same argument name then occurs in several fragments
                 names_ = sorted(ot.fields, key=lambda f_: (not (ot.fields[f_].args and any(f_ in o2.fields for o2 in poss if o2 is not ot)), list(ot.fields).index(f_)))
@@ -397,8 +403,8 @@ def worker(case: Dict[str, Any]) -> CaseResult:
         cfg = write_case(root, sdl, None, cfg_full, extra_files=extra_files)
         if case["idx"] % 3 == 0:
             # something was generated in this interpreter before: the same inputs with nothing configured
-            from ..genpkg import decoy_generations
-            stats["decoy_generations_before"] = decoy_generations(root, sdl, None, config={"enable_custom_operations": True})
+            from ..genpkg import DECOY_KINDS, decoy_generations
+            stats["decoy_generations_before"] = decoy_generations(root, sdl, None, config={"enable_custom_operations": True}, kind=DECOY_KINDS[(case["idx"] // 3) % 4])
         with warnings.catch_warnings():
             warnings.simplefilter("ignore")
             gen = run_cli(root, "client", cfg)
